@@ -4,6 +4,7 @@ from vplib.api import Case, ok, err
 from vplib import core
 from oracle import xrefspec as X
 from oracle.pdfwriter import Obj, Revision, write_file
+from oracle.canon import canon
 
 ID = "C17"
 LEVEL = "proof"
@@ -11,10 +12,11 @@ DESIGN_REF = "DESIGN.md §9 C17, §12.C17"
 COQ_TARGETS = ["Properties/C17", "Pins/C17"]
 THEOREMS = [("PdfV.Properties.C17", n) for n in
             ["C17_marker_first_occurrence", "C17_header_no_border", "C17_locate_start", "C17_locate_xref", "C17_load_invariant",
-             "C17_resolve_invariant", "C17_scan_invariant", "C17_resolve_overflow_refuted", "C17_full_statement_refuted",
-             "C17_scan_refuted_before_fix"]]
+             "C17_resolve_invariant", "C17_scan_invariant", "C17_full_statement_proved", "C17_resolve_no_panic",
+             "C17_lexer_position", "C17_parser_position", "C17_xref_at_prefix", "C17_obj_at_prefix", "C17_tables_invariant", "C17_resolve_latest_prefixed",
+             "C17_resolve_overflow_refuted_before_fix", "C17_scan_refuted_before_fix"]]
 ANCHORS = ["backend.rs", "xref.rs", "parse_xref.rs", "lexer/mod.rs"]
-MODES = ["xr_locate", "xr_walk"]
+MODES = ["xr_locate", "xr_walk", "xr_open"]
 TRUSTED_BASE = ["coqc 8.16.1 kernel (vm_compute for the generated HEADER lemma and the witnesses; no native_compute)",
                 "gen/extract_xref.py (HEADER, search window, startxref keyword, lexer byte classes from the Rust source)",
                 "Extraction + ExtrOcamlBasic, ocamlfind ocamlopt 4.13.1, coq/driver/main.ml",
@@ -22,7 +24,9 @@ TRUSTED_BASE = ["coqc 8.16.1 kernel (vm_compute for the generated HEADER lemma a
                 "tools/oracle/xrefspec.py + pdfwriter.py + canon.py (files written with header-relative offsets, expected values)"]
 ASSUMPTIONS = ["oracle premises of C17_load/resolve/scan_invariant: the object parser reads only the slice it is given and the lexer offset "
                "(Lexer::with_offset) only labels reported file ranges: xref_at/obj_at/member/scan_slice at |p|+pos in p++f equal those at pos in f "
-               "up to shifting ranges (tested on every xr_pair case, all objects, raw stream data, trailer, scan listing)",
+               "up to shifting ranges (tested on every xr_pair case, all objects, raw stream data, trailer, scan listing); PROVED for the lexer and "
+               "the shared object-parser model (C17_lexer_position, C17_parser_position) and hence discharged for classic-table files "
+               "(C17_tables_invariant, C17_resolve_latest_prefixed); still premises for cross-reference streams, object-stream members and scan",
                "usize = u64; files shorter than 2^64 bytes"]
 RULE = ("generated multi-revision files (tables, xref streams, /Prev chains, object streams, stream objects) and the repository's sample files "
         "(unencrypted) x prefix lengths {0,1,2,1018,1019,random} x contents {random, all '%', ending in each proper prefix of the marker}; each case "
@@ -182,25 +186,49 @@ def generate(rng, tier):
         yield Case("xr_locate", [bytes(b)], kind="malformed", tags=["locate-malformed"])
     for c in overflow_cases():
         yield c
+    for c in table_open_cases(rng, quick):
+        yield c
 
 
-def overflow_file():
-    """an xref stream (w1 = 8) whose entry for object 5 has offset 2^64-1"""
+def table_open_cases(rng, quick):
+    """classic-table files behind a prefix, through the composed model (load + resolve_ref + the shared parser:
+    C17_tables_invariant) and against what the writer wrote: the same values as without the prefix"""
+    for i in range(8 if quick else 250):
+        k = rng.randint(1, 4)
+        H = X.gen_history(rng, n_updates=k, max_num=rng.randint(1, 14), force=["table"] * k)
+        for r in H.revisions:
+            r.eol = rng.choice(X.EOLS)
+        data, info = X.render(H)
+        vals, size = X.expected_values(H, info)
+        tr = dict(H.revisions[-1].trailer)
+        if len(H.revisions) > 1:
+            tr["Prev"] = info["startxrefs"][-2]
+        tr["Size"] = info["revisions"][-1]["size"]
+        exp = [(b"!" if v in (b"!FreeObject", b"!NullRef") else v) for v in vals] + [canon(tr)]
+        for tag, pre in prefixes(rng, 1019, True):
+            t1, t2 = tag.split(" ")
+            yield Case("xr_open", [b"s", b"%d" % size, pre + data], expect=ok(*exp), tags=["open-prefixed", t1, t2])
+
+
+def overflow_file(target=2 ** 64 - 1):
+    """an xref stream (w1 = 8) whose entry for object 5 has offset `target` (default 2^64-1)"""
     revs = [Revision({1: Obj({"A": 1}), 5: Obj({"B": 5})}, fmt="stream", trailer={"VpRev": 0}, w=(1, 8, 2), xref_num=6)]
     data, info = write_file(revs)
     off = info["offsets"][(5, 0)]
     row = b"\x01" + off.to_bytes(8, "big") + b"\x00\x00"
     assert data.count(row) == 1
-    return data.replace(row, b"\x01" + b"\xff" * 8 + b"\x00\x00")
+    return data.replace(row, b"\x01" + target.to_bytes(8, "big") + b"\x00\x00")
 
 
 def overflow_cases():
-    yield Case("xr_pair", [b"s", b"7", b"%", overflow_file()], check=pair_check(None), model=False, tags=["overflow-offset"])
+    """C17-b (fixed): offsets for which header position + offset does not fit in 64 bits, or just does"""
+    for off in (2 ** 64 - 1, 2 ** 64 - 2, 2 ** 64 - 1019, 2 ** 64 - 1020, 2 ** 63):
+        for pre in (b"", b"%", b"%%", b"%" * 1018, b"%" * 1019):
+            yield Case("xr_pair", [b"s", b"7", pre, overflow_file(off)], check=pair_check(None), model=False,
+                       tags=["overflow-offset", "len:%d" % len(pre)])
 
 
 def classify(case, impl, model):
-    if impl[0] == "PANIC" and "file.rs" in impl[1] and "overflow" in impl[1] and "overflow-offset" in case.tags:
-        return "C17-b"
     return None
 
 
@@ -209,7 +237,7 @@ def witness_case(f, c):
         c.check = pair_check(None)
         c.model = False
         if f["id"] == "C17-b":
-            c.tags.add("overflow-offset")
+            c.tags = set(c.tags) | {"overflow-offset"}
     elif "expect_hex" in f:
         c.expect = ok(*[bytes.fromhex(x) for x in f["expect_hex"]])
     return c
